@@ -58,6 +58,8 @@ func realToken(name string) *token.Token {
 		return &token.Token{Type: token.IDENTIFIER, Literal: "zeige"}
 	case "mit":
 		return &token.Token{Type: token.MIT, Literal: "mit"}
+	case "Mit":
+		return &token.Token{Type: token.MIT, Literal: "Mit"}
 	case "int1":
 		return &token.Token{Type: token.INT, Literal: "1"}
 	case "nicht":
